@@ -43,6 +43,7 @@ package defers
 // (every stack of a by identity, every stack of b up to stackCompare-equality);
 // sameAsA tells whether every stack of b already occurs in a.
 //@ func stackSetUnion
+//@   loops 3
 //@   property C16
 //@   opaque stackCompare
 //@   persite
@@ -125,6 +126,7 @@ package defers
 // clears pending work after it was recorded (bk is an arbitrary block index); and the
 // fixpoint loop is left only when no block of the traversal order is pending.
 //@ func AnalyzeFunction
+//@   loops 8
 //@   property C16
 //@   option havoc:*
 //@   ghost bk int
